@@ -370,7 +370,9 @@ func (c *fsCache) get(key string) ([]byte, error) {
 	}
 	if c.updateMTime {
 		mtime := time.Now()
-		if err := c.root.Chtimes(name, zeroTime, mtime); err != nil {
+		// The value has been read in full: a Delete (or a replacing Set) that
+		// removed the file in the meantime does not turn the read into a failure.
+		if err := c.root.Chtimes(name, zeroTime, mtime); err != nil && !errors.Is(err, os.ErrNotExist) {
 			return nil, err
 		}
 	}
